@@ -76,6 +76,10 @@ fn build_history(e: &mut Ent) -> Vec<Op> {
         if clash(addr) {
             addr = 0xffe000 + (addr & 0xfe);
         }
+        if e.chance(1, 40) {
+            ops.push(Op { write: false, sz: 4, addr: 0, value: e.u32(), reg: 0, mode: 0, place: 0 });
+            continue;
+        }
         if e.chance(1, 7) {
             // an instruction fetch is a read too (sz 3): from an accessible word it must see what the data
             // path stored there (MOV.W R0,R0 is stored first), from anywhere else it must fail and change nothing
@@ -113,6 +117,35 @@ fn run_history(emu: &mut Emu, ops: &[Op]) -> Result<(usize, usize, usize), Strin
     let (mut overlap_reads, mut edge, mut failing) = (0, 0, 0);
     let mut result = Ok(());
     for (idx, op) in ops.iter().enumerate() {
+        if op.sz == 4 {
+            // time passes with the 8-bit timer counting: the owning peripheral may overwrite *its* registers (TCNT0,
+            // TCSR0) - every other location keeps reading what was written to it (the final comparison sees any
+            // byte the peripheral touched that it does not own)
+            let tcr = 0x01 | ((op.value as u8) & 0xf8);
+            if emu.cpu.bus.write(0xffff80, tcr).is_err() {
+                result = Err(format!("op {} {:?}: the store to TCR0 failed", idx, op));
+                break;
+            }
+            model.insert(0xffff80, tcr);
+            for _ in 0..1 + (op.value >> 8) % 40 {
+                let cpu = &mut emu.cpu;
+                if !matches!(guarded(|| crate::cpu::verif_hooks::update_modules(cpu, 255)), Ok(Ok(()))) {
+                    result = Err(format!("op {} {:?}: update_modules failed", idx, op));
+                    break;
+                }
+            }
+            emu.drain_pending();
+            // the drain's scratch frame: back to what the history made of those bytes
+            for a in 0xffe7fcu32..0xffe800 {
+                raw_set(&mut emu.cpu.bus, a, get(&model, a));
+            }
+            for a in [0xffff88u32, 0xffff82] {
+                if let Some(v) = raw_get(&emu.cpu.bus, a) {
+                    model.insert(a, v);
+                }
+            }
+            continue;
+        }
         if op.sz == 3 {
             // instruction fetch at op.addr
             let pc = op.addr;
@@ -478,7 +511,7 @@ pub fn run(ctx: &Ctx) -> i32 {
                         st.class_n("history: accesses touching an inaccessible byte", failing as u64);
                         st.class_n("history: reads overlapping an earlier write of another extent", ov as u64);
                         if ov > 0 || edge > 0 {
-                            st.nontrivial(key_hash(&format!("{:?}", ops)), || json!({"ops": ops.iter().take(12).map(|o| format!("{}{} {:06x}", if o.write { "st" } else if o.sz == 3 { "" } else { "ld" }, ["B", "W", "L", "fetch"][o.sz as usize], o.addr)).collect::<Vec<_>>(), "n_ops": ops.len()}));
+                            st.nontrivial(key_hash(&format!("{:?}", ops)), || json!({"ops": ops.iter().take(12).map(|o| format!("{}{} {:06x}", if o.write { "st" } else if o.sz == 3 { "" } else { "ld" }, ["B", "W", "L", "fetch", "tick"][o.sz as usize], o.addr)).collect::<Vec<_>>(), "n_ops": ops.len()}));
                         }
                     }
                     Ok(())
